@@ -54,6 +54,10 @@ func NewFloatListDecoder(reuseRecords bool) *FloatListDecoder {
 }
 
 func (d *FloatListDecoder) makeFloatSlice(n uint32) []float64 {
+	// the count comes from the input: the slice grows as the numbers arrive
+	if n > maxPrealloc {
+		n = maxPrealloc
+	}
 	if d.sl == nil {
 		return make([]float64, 0, n)
 	}
